@@ -28,6 +28,17 @@ pub enum EOp {
     Stats,
     Lifecycle,
     CacheSize,
+    /// batch_delete_by_metadata_filter with an Exact filter on the write-number key (index path)
+    FilterDel(u32),
+    /// ... with a filter the inverted index cannot compile (NotFilter without operand): the
+    /// reference-matcher scan fallback
+    FilterDelScan,
+    GetMeta(u64),
+    /// batch_delete_by_filter with a closure predicate (full scan of both tiers)
+    ClosureDel(u32),
+    /// cold_tier().ids_for_metadata_filter, index path / scan fallback (what filtered search uses)
+    FilterIds(u32),
+    FilterIdsScan,
 }
 
 impl EOp {
@@ -50,6 +61,12 @@ impl EOp {
             EOp::Stats => "stats".into(),
             EOp::Lifecycle => "hsc_lifecycle_stats".into(),
             EOp::CacheSize => "cache_size".into(),
+            EOp::FilterDel(w) => format!("batch_delete_by_filter(w={w})"),
+            EOp::FilterDelScan => "batch_delete_by_filter(uncompilable)".into(),
+            EOp::GetMeta(id) => format!("get_metadata({id})"),
+            EOp::ClosureDel(w) => format!("batch_delete_by_filter(closure w={w})"),
+            EOp::FilterIds(w) => format!("ids_for_metadata_filter(w={w})"),
+            EOp::FilterIdsScan => "ids_for_metadata_filter(uncompilable)".into(),
         }
     }
     pub fn kind(&self) -> &'static str {
@@ -71,6 +88,12 @@ impl EOp {
             EOp::Stats => "stats",
             EOp::Lifecycle => "lifecycle",
             EOp::CacheSize => "cache_size",
+            EOp::FilterDel(..) => "batch_delete_by_filter",
+            EOp::FilterDelScan => "batch_delete_by_filter_scan",
+            EOp::GetMeta(..) => "get_metadata",
+            EOp::ClosureDel(..) => "batch_delete_by_closure",
+            EOp::FilterIds(..) => "ids_for_metadata_filter",
+            EOp::FilterIdsScan => "ids_for_metadata_filter_scan",
         }
     }
     pub fn needs_persistence(&self) -> bool {
@@ -178,6 +201,45 @@ pub fn run_op(te: &TieredEngine, op: &EOp) -> Obs {
         EOp::CacheSize => {
             let _ = te.cache_size();
             Obs::Other
+        }
+        EOp::FilterDel(w) => {
+            use kyrodb_engine::proto::{metadata_filter::FilterType, ExactMatch, MetadataFilter};
+            let f = MetadataFilter { filter_type: Some(FilterType::Exact(ExactMatch { key: "w".into(), value: w.to_string() })) };
+            match te.batch_delete_by_metadata_filter(&f) {
+                Ok(n) => Obs::Count(n),
+                Err(e) => Obs::Err(format!("{e:#}")),
+            }
+        }
+        EOp::GetMeta(id) => {
+            let _ = te.get_metadata(*id);
+            Obs::Other
+        }
+        EOp::ClosureDel(w) => {
+            let ws = w.to_string();
+            match te.batch_delete_by_filter(|m| m.get("w") == Some(&ws)) {
+                Ok(n) => Obs::Count(n),
+                Err(e) => Obs::Err(format!("{e:#}")),
+            }
+        }
+        EOp::FilterIds(w) => {
+            use kyrodb_engine::proto::{metadata_filter::FilterType, ExactMatch, MetadataFilter};
+            let f = MetadataFilter { filter_type: Some(FilterType::Exact(ExactMatch { key: "w".into(), value: w.to_string() })) };
+            let _ = te.cold_tier().ids_for_metadata_filter(&f);
+            Obs::Other
+        }
+        EOp::FilterIdsScan => {
+            use kyrodb_engine::proto::{metadata_filter::FilterType, MetadataFilter, NotFilter};
+            let f = MetadataFilter { filter_type: Some(FilterType::NotFilter(Box::new(NotFilter { filter: None }))) };
+            let _ = te.cold_tier().ids_for_metadata_filter(&f);
+            Obs::Other
+        }
+        EOp::FilterDelScan => {
+            use kyrodb_engine::proto::{metadata_filter::FilterType, MetadataFilter, NotFilter};
+            let f = MetadataFilter { filter_type: Some(FilterType::NotFilter(Box::new(NotFilter { filter: None }))) };
+            match te.batch_delete_by_metadata_filter(&f) {
+                Ok(n) => Obs::Count(n),
+                Err(e) => Obs::Err(format!("{e:#}")),
+            }
         }
     }
 }
